@@ -187,6 +187,8 @@ void FlexPath::apply_repetition(Array<FlexPath*>& result) {
     Array<Vec2> offsets = {};
     repetition.get_offsets(offsets);
     repetition.clear();
+    // A lattice with zero columns or rows has no offsets at all
+    if (offsets.count == 0) return;
 
     // Skip first offset (0, 0)
     Vec2* offset_p = offsets.items + 1;
